@@ -146,6 +146,10 @@ class Client:
             self.result = None
 
     def _yield(self):
+        if threading.current_thread() is not self.thread:
+            # a ZooKeeper call made outside the request thread (from a watch callback fired by another client's step):
+            # it runs to completion where it is fired - there is no baton to hand back, waiting for one would hang
+            return
         self.parked.release()
         self.go.acquire()
         if not self.alive:
